@@ -382,6 +382,52 @@ fn queued_wait_scenario(limit: usize, wait: u64, ender: End) -> Result<Option<(S
     Ok(None)
 }
 
+/// Several accept loops share the one semaphore (current-thread runtime with --threads N): while
+/// `held` < limit connections are open, each of 16 fresh connections opened one after another
+/// must be served at once, whichever listener the kernel hands it to.
+fn multi_listener_scenario(limit: usize, listeners: u8, held: usize) -> Result<Option<(String, String)>, String> {
+    let w = NetWorld::new(NetCfg { conn_limit: limit as u32, listeners, ..Default::default() })?;
+    let name = format!("limit={} listeners={} connections held open={}", limit, listeners, held);
+    let mut holders: Vec<Conn> = vec![];
+    for i in 0..held {
+        holders.push(open(&w, 0x500 + i as u32)?);
+    }
+    refresh(&w, &mut holders);
+    if holders.iter().filter(|c| c.served).count() != held {
+        return Ok(Some((
+            "listeners|holders-not-served".into(),
+            format!("{}: only {} of the {} first connections are served", name, holders.iter().filter(|c| c.served).count(), held),
+        )));
+    }
+    for round in 0..16u32 {
+        let mut c = open(&w, 0x600 + round)?;
+        w.settle();
+        c.c.pump();
+        if count_noops(&c.c) != 1 {
+            return Ok(Some((
+                "listeners|fresh-not-served".into(),
+                format!("{}: fresh connection #{} was not served although only {} of {} slots are taken", name, round, held, limit),
+            )));
+        }
+        c.c.close(&w);
+        w.settle();
+    }
+    // and the limit still holds: limit - held more are served, the next one waits
+    let mut extra: Vec<Conn> = vec![];
+    for i in 0..(limit - held + 1) {
+        extra.push(open(&w, 0x700 + i as u32)?);
+    }
+    refresh(&w, &mut extra);
+    let served = extra.iter().filter(|c| c.served).count();
+    if served != limit - held {
+        return Ok(Some((
+            format!("listeners|{}", if served > limit - held { "too-many" } else { "slots-lost" }),
+            format!("{}: of {} further connections {} are served, expected {}", name, limit - held + 1, served, limit - held),
+        )));
+    }
+    Ok(None)
+}
+
 pub fn check(tier: Tier, threads: usize) -> CheckOutcome {
     let t0 = Instant::now();
     let limits: Vec<usize> = if tier == Tier::Quick { vec![1, 2] } else { vec![1, 2, 3, 4] };
@@ -500,6 +546,31 @@ pub fn check(tier: Tier, threads: usize) -> CheckOutcome {
         }
     }
     events += qcases.len() as u64 * 8;
+    // several accept loops on one semaphore
+    let mut lcases: Vec<(usize, u8, usize)> = vec![];
+    for listeners in if tier == Tier::Quick { vec![2u8] } else { vec![2u8, 3, 4] } {
+        for (l, h) in [(1usize, 0usize), (2, 0), (2, 1), (3, 1), (3, 2), (4, 3)] {
+            lcases.push((l, listeners, h));
+        }
+    }
+    let lres = par_map(&lcases, threads, |_, (l, n, h)| multi_listener_scenario(*l, *n, *h));
+    for ((l, n, h), r) in lcases.iter().zip(lres.iter()) {
+        match r {
+            Err(er) if er.starts_with("connect:") => {
+                found.entry("server|not-accepting".into()).or_insert(Violation {
+                    signature: "server|not-accepting".into(),
+                    what: format!("limit {} listeners {} held {}: {}", l, n, h, er),
+                    replay: json!({"engine": "c17-listeners"}),
+                });
+            }
+            Err(er) => mach = Some(er.clone()),
+            Ok(Some((sig, what))) => {
+                found.entry(sig.clone()).or_insert(Violation { signature: sig.clone(), what: what.clone(), replay: json!({"engine": "c17-listeners", "limit": l, "listeners": n, "held": h}) });
+            }
+            Ok(None) => {}
+        }
+    }
+    events += lcases.len() as u64 * 20;
     let samples: Vec<serde_json::Value> = cases
         .iter()
         .step_by((cases.len() / 5).max(1))
@@ -516,6 +587,7 @@ pub fn check(tier: Tier, threads: usize) -> CheckOutcome {
             "states": cases.len() + offs.len(),
             "byte_offset_scenarios": offs.len(),
             "queued_silent_client_scenarios": qcases.len(),
+            "several_accept_loops_scenarios": lcases.len(),
             "transitions": events,
             "traces_validated_against_impl": cases.len(),
             "limits": limits,
